@@ -13,6 +13,11 @@ import (
 
 const (
 	keyScanBufSize = 1024
+
+	// maxMacroFeeds is how many times keys can be fed to the stack (a macro is
+	// run) before all fed keys have been used: a macro running itself would
+	// otherwise feed keys forever, and the terminal would never be read again.
+	maxMacroFeeds = 1000
 )
 
 // Stdin is used by the Keys struct to read and write keys.
@@ -27,6 +32,7 @@ type Keys struct {
 	buf       []byte      // Keys read and waiting to be used.
 	matched   []rune      // Keys that have been successfully matched against a bind.
 	macroKeys []rune      // Keys that have been fed by a macro.
+	feeds     int         // Feeds made since the fed keys were last all used.
 	mustWait  bool        // Keys are in the stack, but we must still read stdin.
 	waiting   bool        // Currently waiting for keys on stdin.
 	reading   bool        // Currently reading keys out of the main loop.
@@ -45,6 +51,13 @@ type Keys struct {
 // anymore, in which case no key is available and none will ever be.
 func WaitAvailableKeys(keys *Keys, cfg *inputrc.Config) error {
 	keys.cfg = cfg
+
+	// All fed keys have been used: no macro is running anymore.
+	keys.mutex.Lock()
+	if len(keys.macroKeys) == 0 {
+		keys.feeds = 0
+	}
+	keys.mutex.Unlock()
 
 	if len(keys.buf) > 0 && !keys.mustWait {
 		return nil
@@ -302,6 +315,12 @@ func (k *Keys) Feed(begin bool, keys ...rune) {
 
 	k.mutex.Lock()
 	defer k.mutex.Unlock()
+
+	// A runaway macro (one that runs itself) is dropped.
+	if k.feeds++; k.feeds > maxMacroFeeds {
+		k.macroKeys = nil
+		return
+	}
 
 	if begin {
 		k.macroKeys = append(keyBuf, k.macroKeys...)
